@@ -854,6 +854,23 @@ def main():
     for k in sorted(dec.dist["by_known"]):
         ck.note("generated requests in known class %s: %d" % (k, dec.dist["by_known"][k]))
 
+    # (5b) a scheduled rule added over HTTP and the same rule added by the direct System call (another location of the same System,
+    # real InternalCron): both are answered alike at once, and when the schedule is due both have done the same work
+    scs = [{"kind": "c18.sched", "state": st, "enc": enc} for st in ("indexed", "linear") for enc in (("json", "form") if ck.thorough else ("json" if st == "linear" else "form",))]
+    for c, o in zip(scs, run_cases(drv, scs, jobs=len(scs), per_chunk=1) if scs else []):
+        ck.count(c)
+        bad = None
+        if not isinstance(o, dict) or "H" not in o:
+            bad = "could not be run: %s" % canon(o)[:200]
+        elif not isinstance(o.get("http"), dict) or o["http"].get("status") != 200 or o.get("direct") != "ds1":
+            bad = "the two additions are not answered alike: http=%s direct=%s" % (canon(o.get("http"))[:160], canon(o.get("direct"))[:80])
+        elif canon(o["H"]) != canon(o["D"]):
+            again = run_cases(drv, [c])[0]          # timing: believed when it happens twice
+            if isinstance(again, dict) and canon(again.get("H")) != canon(again.get("D")):
+                bad = "after the schedule was due the location written to over HTTP holds %s, the one written to directly %s" % (canon(o["H"])[:200], canon(o["D"])[:200])
+        if bad:
+            ck.violation("a scheduled rule added over HTTP (%s body, %s state) and by the direct call: %s" % (c["enc"], c["state"], bad), {"case": c, "impl": o}, tag="sched")
+
     # (6) broken proof / broken tie without a failing input
     if (proof_broken or tie_broken) and ck.violations == 0:
         ck.violation("the tie to the source no longer checks: %s" % (tie_broken or pr["failed"]),
